@@ -113,6 +113,28 @@ func ruleQRModeBits(c *Ctx) {
 				}
 				gcases = append(gcases, cs)
 			}
+			byResidue := false
+			for _, cs := range gcases {
+				cv := &condVars{bases: map[string]map[int64]bool{}, bools: map[string]bool{}}
+				collect(cs.cond, cv)
+				if cv.bases["Mod(len(grp),3)"] != nil {
+					byResidue = true
+				}
+			}
+			if !byResidue && sliceLenWithin(c.P, fn, cur, 1, 3) {
+				// the width read from a table at the group's length: a group is one to three characters
+				// long (shown from how it is cut out of the content), so length and residue say the same
+				dom := MustRefCond("len(grp) >= 1 && len(grp) <= 3")
+				var live []valCase
+				for _, cs := range gcases {
+					if eq, _ := CondEquivalent(cAnd(dom, cs.cond), cFalse); !eq {
+						live = append(live, cs)
+					}
+				}
+				checkCasesUnder(c, R, "qr.encodeNumeric/group-bits", ab.Pos(), live, []edgeSpec{
+					{"10", "len(grp) == 3"}, {"4", "len(grp) == 1"}, {"7", "len(grp) == 2"}}, dom)
+				continue
+			}
 			checkCases(c, R, "qr.encodeNumeric/group-bits", ab.Pos(), gcases, []edgeSpec{
 				{"10", "len(grp)%3 == 0"}, {"4", "len(grp)%3 != 0 && len(grp)%3 == 1"}, {"7", "len(grp)%3 != 0 && len(grp)%3 != 1 && len(grp)%3 == 2"}})
 		}
@@ -324,6 +346,18 @@ func ruleCode39Assembly(c *Ctx) {
 			if !isNilConst(ret.Results[1]) && hdr.Dominates(ret.Block()) {
 				c.expectCond(R, pk+".prepare/error-iff", ret.Pos(), n.ReachCond(fn, body, ret.Block()), "r > 127")
 			}
+			// every successful return hands back what the rune loop accumulated (a shortcut around the
+			// loop would leave characters unexpanded that the full-ASCII spelling replaces)
+			if isNilConst(ret.Results[1]) && rphi != nil {
+				okRet := hdr.Dominates(ret.Block()) && n.Norm(ret.Results[0]).String() == "acc"
+				if k, isK := ret.Results[0].(*ssa.Const); isK && !hdr.Dominates(ret.Block()) && k.Value != nil && k.Value.ExactString() == `""` {
+					// (an empty text has nothing to expand)
+					if eq, _ := CondEquivalent(n.ReachCond(fn, nil, ret.Block()), MustRefCond("len(content) == 0")); eq {
+						okRet = true
+					}
+				}
+				c.Check(R, pk+".prepare/returns-accumulated@"+c.P.Pos(ret.Pos()), ret.Pos(), okRet, "the string accumulated by the rune loop", n.Norm(ret.Results[0]).String())
+			}
 		}
 		var allCases []valCase
 		if bld != nil {
@@ -486,15 +520,33 @@ func ruleCode39Assembly(c *Ctx) {
 					}
 				})
 			}
-			if hdr == nil || posV == nil {
+			var flag *ssa.Phi
+			neg := false
+			if hdr != nil {
+				flag, neg = notFirstFlag(hdr)
+			}
+			if hdr == nil || (posV == nil && flag == nil) {
 				c.Undecided(R, "code39.EncodeWithColor/loop", pat.Pos(), "character loop not found")
 			} else {
-				n.Bind[posV] = "i"
+				if posV != nil {
+					n.Bind[posV] = "i"
+				}
 				projectOK(n, fn, hdr.Succs[0], pat.Block())
 				patC := n.ReachCond(fn, hdr.Succs[0], pat.Block())
 				// for every character that is drawn (position i >= 0): a gap first, except at position 0
 				dom := cAnd(MustRefCond("i >= 0"), patC)
-				c.expectCondC(R, "code39.EncodeWithColor/gap-iff", gap.Pos(), cAnd(dom, n.ReachCond(fn, hdr.Succs[0], gap.Block())), cAnd(dom, MustRefCond("i != 0")))
+				want := MustRefCond("i != 0")
+				if flag != nil {
+					// (or decided by a flag that is raised after the first character)
+					n.Bind[flag] = "notfirst"
+					if posV == nil || condMentions(n.ReachCond(fn, hdr.Succs[0], gap.Block()), "notfirst") {
+						want = &Cond{Kind: CBool, Name: "notfirst"}
+						if neg {
+							want = cNot(want)
+						}
+					}
+				}
+				c.expectCondC(R, "code39.EncodeWithColor/gap-iff", gap.Pos(), cAnd(dom, n.ReachCond(fn, hdr.Succs[0], gap.Block())), cAnd(dom, want))
 				c.Check(R, "code39.EncodeWithColor/gap-before-pattern", gap.Pos(), !dominatesInstr(pat, gap) && reachableFrom(gap.Block())[pat.Block()], "the gap precedes the character's pattern", "ok")
 				c.expectCond(R, "code39.EncodeWithColor/pattern-iff", pat.Pos(), patC, "ok")
 			}
@@ -536,4 +588,94 @@ func ruleCode39Assembly(c *Ctx) {
 		})
 	}
 	_ = types.Typ
+}
+
+// sliceLenWithin: every way the string v is cut out (x[lo:hi], possibly chosen between two cuts, with
+// hi possibly min(...)) has a length between least and most, given the conditions under which the
+// cut is made (loop-carried positions are named, so that "pos < len(x)" counts).
+func sliceLenWithin(p *Prog, fn *ssa.Function, v ssa.Value, least, most int64) bool {
+	n := NewNormer(p)
+	k := 0
+	for _, b := range fn.Blocks {
+		for _, ins := range b.Instrs {
+			phi, ok := ins.(*ssa.Phi)
+			if !ok {
+				break
+			}
+			if !isIntType(phi.Type()) {
+				continue
+			}
+			for _, pr := range b.Preds {
+				if b.Dominates(pr) {
+					n.Bind[phi] = fmt.Sprintf("lv%d", k)
+					k++
+					break
+				}
+			}
+		}
+	}
+	var cuts []*ssa.Slice
+	var conds []*Cond
+	var gather func(x ssa.Value, cond *Cond, depth int) bool
+	gather = func(x ssa.Value, cond *Cond, depth int) bool {
+		if depth > 3 {
+			return false
+		}
+		switch y := x.(type) {
+		case *ssa.Slice:
+			cuts = append(cuts, y)
+			conds = append(conds, cAnd(cond, n.ReachCond(fn, nil, y.Block())))
+			return true
+		case *ssa.Phi:
+			blk := y.Block()
+			for ei, e := range y.Edges {
+				if blk.Dominates(blk.Preds[ei]) {
+					return false
+				}
+				if !gather(e, cAnd(cond, cAnd(n.ReachCond(fn, nil, blk.Preds[ei]), n.EdgeCond(blk.Preds[ei], blk))), depth+1) {
+					return false
+				}
+			}
+			return true
+		}
+		return false
+	}
+	if !gather(v, cTrue, 0) || len(cuts) == 0 {
+		return false
+	}
+	for i, sl := range cuts {
+		if !isStringType(sl.X.Type()) {
+			if _, isSl := sl.X.Type().Underlying().(*types.Slice); !isSl {
+				return false
+			}
+		}
+		lo := pConst(0)
+		if sl.Low != nil {
+			lo = n.Norm(sl.Low)
+		}
+		var his []valCase
+		if sl.High != nil {
+			his = n.valueCases(fn, nil, sl.High, 0)
+		} else {
+			his = []valCase{{pAtom("len(" + n.Norm(sl.X).asAtom() + ")"), cTrue}}
+		}
+		for _, h := range his {
+			under := cAnd(conds[i], h.cond)
+			if eq, _ := CondEquivalent(under, cFalse); eq {
+				continue
+			}
+			d := pAdd(h.val, lo, -1)
+			if kk, isK := d.IsConst(); isK {
+				if kk < least || kk > most {
+					return false
+				}
+				continue
+			}
+			want := cAnd(cmpCond(token.GEQ, d, pConst(least)), cmpCond(token.LEQ, d, pConst(most)))
+			if imp, _, _ := CondRelation(under, want); !imp {
+				return false
+			}
+		}
+	}
+	return true
 }
